@@ -26,8 +26,10 @@ class FakeLock:
         self.locked = False
         self.order = None
 
-    def acquire(self):
+    def acquire(self, blocking=True, timeout=-1):
         me = FakeLock.sched.current
+        if not blocking and self.locked:
+            return False
         while self.locked:
             FakeLock.sched.report(me, "blocked")
         self.locked = True
@@ -38,13 +40,65 @@ class FakeLock:
             raise RuntimeError("release unlocked lock")
         self.locked = False
 
+    __enter__ = acquire
+
+    def __exit__(self, *a):
+        self.release()
+
+
+    def flag(self):
+        return int(self.locked)
+
+
+class FakeRLock:
+    """stand-in for threading.RLock: owned by a logical thread, re-entrant for it, released only by it"""
+
+    def __init__(self):
+        self.locked = False
+        self.owner = None
+        self.count = 0
+
+    def acquire(self, blocking=True, timeout=-1):
+        me = FakeLock.sched.current
+        if self.owner == me and self.locked:
+            self.count += 1
+            return True
+        if not blocking and self.locked:
+            return False
+        while self.locked:
+            FakeLock.sched.report(me, "blocked")
+        self.locked, self.owner, self.count = True, me, 1
+        return True
+
+    def release(self):
+        me = FakeLock.sched.current
+        if not self.locked or self.owner != me:
+            raise RuntimeError("cannot release un-acquired lock")
+        self.count -= 1
+        if self.count == 0:
+            self.locked, self.owner = False, None
+
+    __enter__ = acquire
+
+    def __exit__(self, *a):
+        self.release()
+
+    def flag(self):
+        return 0 if not self.locked else 2 + 8 * (self.owner + 1) + 64 * self.count
+
 
 class _Abort(BaseException):
     pass
 
 
-class FakeThreading:
+class _FakeThreadingMeta(type):
+    def __getattr__(cls, name):            # everything that is not a lock is the real thing
+        return getattr(threading, name)
+
+
+class FakeThreading(metaclass=_FakeThreadingMeta):
     Lock = FakeLock
+    RLock = FakeRLock
 
 
 def cs_marker():
@@ -172,7 +226,7 @@ class Sched:
     def state(self):
         d = self.lock.__dict__
         rs, ws = d["_RWLock__read_switch"], d["_RWLock__write_switch"]
-        return (tuple(self.pos), tuple(int(lk.locked) for lk in self._locks()),
+        return (tuple(self.pos), tuple(lk.flag() for lk in self._locks()),
                 getattr(rs, "_LightSwitch__counter"), getattr(ws, "_LightSwitch__counter"),
                 tuple(e for e in self.error))
 
